@@ -34,6 +34,8 @@ struct C29 {
 }
 
 const CHAIN: u64 = 700;
+/// length of the generated chain; heights above `CHAIN` are used by the size-threshold phase only
+const BIG_CHAIN: u64 = 2200;
 
 fn encode(h: &ExtendedHeader) -> Vec<u8> {
     use tendermint_proto::Protobuf;
@@ -44,7 +46,7 @@ impl C29 {
     fn new() -> Self {
         let rt = tokio::runtime::Builder::new_current_thread().enable_time().build().unwrap();
         let mut g = ExtendedHeaderGenerator::new();
-        let chain = g.next_many(CHAIN);
+        let chain = g.next_many(BIG_CHAIN);
         let encoded = chain.iter().map(encode).collect();
         C29 { rt, chain, encoded, store: Arc::new(InMemoryStore::new()) }
     }
@@ -126,7 +128,13 @@ impl Prop for C29 {
         "stores: InMemoryStore filled from one generated chain (1..700) with random gaps, one contiguous 1..700 store \
          (so that the 512 cap is reached), one empty store; requests: origin x amount over stored heights, gap edges, \
          head, 0, heights beyond the head, u64::MAX-512..u64::MAX, amounts 0,1,2,511,512,513,2^32,2^63,u64::MAX; hash \
-         requests with stored/unknown/short/long hashes and amounts 0,1,2; requests without data; requests after stop. \
+         requests with stored/unknown/short/long hashes and amounts 0,1,2; requests without data; requests after stop; \
+         size-threshold stress (tags big/.., thr/..; chain extended to 2200 headers): stores with 9 / 17 / 33 / 65 ranges \
+         (thorough: 8..257, 3 each) where EVERY range gets requests with amount = run length -1/+0/+1, 513 from its last \
+         height, below and above it, head / beyond-head / hash requests near the top; one range of exactly 63/64/65 heights \
+         with amounts 62..66; a store with runs of exactly 511, 512, 513, 63, 64, 65 and 462 heights at heights up to 2200 \
+         with amounts run-1/run/run+1/511/512/513/u64::MAX and origins that leave exactly 63/64/65/511/512/513 heights; \
+         one contiguous store 1..2200 with origins around 64, 512, 1024, head-512 and amounts 63..65, 511..513, 1000..2200. \
          Non-trivial = every request against a non-empty store except no-data requests; distinct = distinct (op, result)."
     }
     fn gen_ops(&mut self, rng: &mut Rng, tier: Tier, out: &mut Emitter) {
@@ -200,6 +208,88 @@ impl Prop for C29 {
             out.op(format!("req a=1 d=o:{} stop=1", head.max(1)), "req/stopped", nonempty);
             out.op("req a=1 d=o:0 stop=1".to_string(), "req/stopped", nonempty);
         }
+        // size-threshold stress (S10): stores with MANY gaps, run lengths 63/64/65 and 511/512/513, 2200 contiguous
+        out.op("reset", "reset", false);
+        let ks: Vec<u64> = if thorough { vec![8, 9, 16, 17, 32, 33, 64, 65, 129, 257] } else { vec![9, 17, 33, 65] };
+        for (ki, &k) in ks.iter().enumerate() {
+            for rep in 0..(if thorough { 3 } else { 1 }) {
+                // k ranges of 1..6 heights, gaps of 1..3, one range of exactly 63 / 64 / 65 heights
+                let special = rng.below(k);
+                let special_len = [63u64, 64, 65][(ki + rep) % 3];
+                let mut ranges = vec![];
+                let mut h = rng.range(1, 4);
+                for i in 0..k {
+                    let len = if i == special { special_len } else if rng.bool() { 1 } else { rng.range(1, 6) };
+                    ranges.push((h, h + len - 1));
+                    h += len + rng.range(1, 3);
+                }
+                assert!(ranges.last().unwrap().1 <= BIG_CHAIN);
+                out.op(self.store_line(&ranges), &format!("store/big-{k}r"), false);
+                let head = ranges.last().unwrap().1;
+                // EVERY range (not only the first 12): exact run lengths +-1, the cap, gap edges
+                for &(a, b) in &ranges {
+                    let run = b - a + 1;
+                    let t = format!("big/{k}r");
+                    out.op(format!("req a={run} d=o:{a}"), &format!("{t}/run"), true);
+                    out.op(format!("req a={} d=o:{a}", run + 1), &format!("{t}/run+1"), true);
+                    out.op(format!("req a={} d=o:{a}", (run - 1).max(1)), &format!("{t}/run-1"), true);
+                    out.op(format!("req a=513 d=o:{b}"), &format!("{t}/last-of-range"), true);
+                    out.op(format!("req a=2 d=o:{}", a - 1), &format!("{t}/below-range"), true);
+                    out.op(format!("req a={} d=o:{}", *rng.pick(&[1u64, 64, 512, u64::MAX]), b + 1), &format!("{t}/above-range"), true);
+                    if run >= 63 {
+                        for am in [62u64, 63, 64, 65, 66, 512] {
+                            out.op(format!("req a={am} d=o:{a}"), &format!("thr/run{run}-amount{am}"), true);
+                            out.op(format!("req a={am} d=o:{}", a + 1), &format!("thr/run{}-amount{am}", run - 1), true);
+                        }
+                    }
+                }
+                out.op("req a=1 d=o:0".to_string(), &format!("big/{k}r/head"), true);
+                out.op(format!("req a=2 d=o:{}", head + 1), &format!("big/{k}r/beyond-head"), true);
+                for &(a, b) in ranges.iter().rev().take(3) {
+                    out.op(format!("req a=1 d=h:{}", hx(self.chain[(b - 1) as usize].hash().as_bytes())), &format!("big/{k}r/hash-stored"), true);
+                    out.op(format!("req a=1 d=h:{}", hx(self.chain[(a - 2) as usize].hash().as_bytes())), &format!("big/{k}r/hash-in-gap"), true);
+                }
+            }
+        }
+        // run lengths exactly 511 / 512 / 513 (MAX_HEADERS_AMOUNT_RESPONSE = 512) and 63 / 64 / 65, large heights
+        let thr_ranges: Vec<(u64, u64)> =
+            vec![(5, 515), (517, 1028), (1030, 1542), (1544, 1606), (1608, 1671), (1673, 1737), (1739, BIG_CHAIN)];
+        out.op(self.store_line(&thr_ranges), "store/thr-runs", false);
+        for &(a, b) in &thr_ranges {
+            let run = b - a + 1;
+            let mut ams = vec![run - 1, run, run + 1, 511, 512, 513, u64::MAX];
+            ams.sort();
+            ams.dedup();
+            for am in ams {
+                out.op(format!("req a={am} d=o:{a}"), &format!("thr/run{}-amount", run.min(999)), true);
+                if thorough || rng.chance(1, 3) {
+                    out.op(format!("req a={am} d=o:{}", a + 1), &format!("thr/run{}-amount", (run - 1).min(999)), true);
+                }
+            }
+            // exactly 511 / 512 / 513 heights left up to the end of the range
+            for left in [63u64, 64, 65, 511, 512, 513] {
+                if left <= run {
+                    let am = if left < 100 { 64 } else { *rng.pick(&[512u64, 513, 1000]) };
+                    out.op(format!("req a={am} d=o:{}", b + 1 - left), &format!("thr/left{left}-amount{am}"), true);
+                }
+            }
+        }
+        // one contiguous range of 2200 heights
+        out.op(self.store_line(&[(1, BIG_CHAIN)]), "store/long2200", false);
+        let b = BIG_CHAIN;
+        let origins = [1u64, 2, 63, 64, 65, 511, 512, 513, 1024, 1025, b - 513, b - 512, b - 511, b - 510, b - 64, b - 63, b - 1, b, b + 1];
+        let all_am = [63u64, 64, 65, 511, 512, 513, 1000, 2048, 2200, u64::MAX];
+        for (oi, o) in origins.into_iter().enumerate() {
+            // (each answer carries up to 512 headers: quick takes every second origin and 3 amounts)
+            if !thorough && oi % 2 == 1 {
+                continue;
+            }
+            let ams: Vec<u64> = if thorough { all_am.to_vec() } else { vec![512, 513, *rng.pick(&all_am)] };
+            for am in ams {
+                out.op(format!("req a={am} d=o:{o}"), "big/long2200/req", true);
+            }
+        }
+        out.op("req a=1 d=o:0".to_string(), "big/long2200/head", true);
     }
 
     fn run(&mut self, line: &str) -> String {
